@@ -304,3 +304,70 @@ Proof.
     pose proof (relabel_attrs m g Hw Hinj k Hk) as A. unfold node_attrs in A.
     destruct (gfind (map_get m k) (relabel_copy g m)); destruct (gfind k g); try discriminate; [inversion A; now subst|reflexivity].
 Qed.
+
+(** ---------------------------------------------------------------- ref_remap: node references follow the permutation *)
+Lemma zmap_get_map_get m a : In a (map fst m) -> zmap_get m a = Some (map_get m a).
+Proof.
+  unfold map_get. induction m as [|[x y] r IH]; cbn; [contradiction|].
+  destruct (Z.eqb_spec x a) as [->|N]; [reflexivity|]. intros [E|H]; [contradiction|]. now apply IH.
+Qed.
+Lemma gna_keys_nodup g a : NoDup (node_keys g) -> NoDup (map fst (get_node_attributes g a)).
+Proof.
+  unfold get_node_attributes, node_keys. induction g as [|n r IH]; cbn; intros H; [constructor|]. inversion H; subst.
+  destruct (aget a (na n)); cbn; [|now apply IH]. constructor; [|now apply IH].
+  intros X. apply H2. apply in_map_iff in X as [[k v] [E Hin]]. cbn in E. subst k.
+  apply in_flat_map in Hin as [x [Hx Hv]]. destruct (aget a (na x)); [|contradiction]. destruct Hv as [Hv|[]]. inversion Hv; subst.
+  now apply in_map.
+Qed.
+Lemma map_res_fst {A} (f : pyval -> res A) : forall l l',
+  GraphOps.map_res (fun kv : Z * pyval => v' <- f (snd kv) ;; Ok (fst kv, v')) l = Ok l' -> map fst l' = map fst l.
+Proof.
+  induction l as [|x r IH]; cbn; intros l' H; [apply ok_inj in H; now subst|].
+  destruct (f (snd x)); cbn in H; [|discriminate]. destruct (GraphOps.map_res _ r) eqn:E; cbn in H; [|discriminate].
+  apply ok_inj in H. subst. cbn. f_equal. now apply IH.
+Qed.
+Lemma set_from_get a : forall d g j v, NoDup (map fst d) -> In (j, v) d -> has_node g j = true ->
+  node_get (set_nodes_from g a d) j a = Some v.
+Proof.
+  unfold set_nodes_from. induction d as [|[j' v'] r IH]; cbn [fold_left map fst snd]; intros g j v Hn Hin Hj; [contradiction|].
+  inversion Hn as [|? ? Hx Hr]; subst. destruct Hin as [E|Hin].
+  - inversion E; subst. destruct (set_nodes_from_facts a r (set_node_attr g j a v)) as [_ _].
+    assert (forall d g0, ~ In j (map fst d) -> node_get (fold_left (fun acc kv => set_node_attr acc (fst kv) a (snd kv)) d g0) j a = node_get g0 j a) as Hk.
+    { induction d as [|[j2 v2] d IHd]; cbn [fold_left map fst snd]; intros g0 Hni; [reflexivity|].
+      rewrite IHd by (intros X; apply Hni; now right). unfold node_get. rewrite gfind_set_node_attr.
+      destruct (Z.eqb_spec j j2) as [->|N]; [exfalso; apply Hni; now left|reflexivity]. }
+    rewrite Hk by exact Hx. unfold node_get. rewrite gfind_set_node_attr, Z.eqb_refl.
+    unfold has_node in Hj. destruct (gfind j g); [|discriminate]. cbn. apply aget_aset_same.
+  - apply IH; auto. apply gfind_has. rewrite keys_set. now apply gfind_has.
+Qed.
+
+Theorem ref_remap g h k a b : wf_graph g -> map fst (get_node_attributes g (S "fragid")) = node_keys g ->
+  sort_nodes_by_attr g = Ok h -> In k (node_keys g) -> In a (node_keys g) -> In b (node_keys g) ->
+  node_get g k (S "ez_isomer_atoms") = Some (VTup [VInt a; VInt b]) ->
+  exists m, sort_mapping g = Ok m /\
+    node_get h (map_get m k) (S "ez_isomer_atoms") = Some (VList [VInt (map_get m a); VInt (map_get m b)]).
+Proof.
+  intros Hw Hall H Hk Ha Hb Hez.
+  destruct (sort_graph g h Hw Hall H) as [m [Em [Hinj _]]]. exists m. split; [exact Em|].
+  unfold sort_nodes_by_attr in H. rewrite Em in H. unfold bind at 1 in H.
+  destruct (GraphOps.map_res _ _) as [nd|] eqn:End; [|discriminate]. unfold bind in H. apply ok_inj in H. subst h.
+  set (h0 := relabel_copy g m) in *.
+  (* keys of the mapping *)
+  assert (forall x, In x (node_keys g) -> zmap_get m x = Some (map_get m x)) as Hz.
+  { intros x Hx. apply zmap_get_map_get. destruct (sort_keys g m Em) as [_ P]. rewrite Hall in P.
+    eapply Permutation_in; [symmetry; exact P|exact Hx]. }
+  (* the node phi k of the relabelled copy carries the old attributes *)
+  pose proof (relabel_attrs m g Hw Hinj k Hk) as A. fold h0 in A. unfold node_attrs in A. unfold node_get in Hez.
+  destruct (gfind (map_get m k) h0) as [x|] eqn:Ex; destruct (gfind k g) as [n|] eqn:En; try discriminate.
+  apply ok_inj in A.
+  assert (In (map_get m k, VTup [VInt a; VInt b]) (get_node_attributes h0 (S "ez_isomer_atoms"))) as Hin.
+  { unfold get_node_attributes. apply in_flat_map. exists x. split; [eapply gfind_In; exact Ex|].
+    rewrite A, Hez. left. now rewrite (gfind_key _ _ _ Ex). }
+  destruct (map_res_all _ _ _ _ End Hin) as [[j v'] [Hnd Hf]]. cbn [fst snd] in Hf.
+  unfold remap_val, strict_get in Hf. cbn [GraphOps.map_res] in Hf. rewrite (Hz a Ha), (Hz b Hb) in Hf. cbn in Hf.
+  apply ok_inj in Hf. injection Hf as <- <-.
+  apply set_from_get; [|exact Hnd|].
+  - rewrite (map_res_fst _ _ _ End). apply gna_keys_nodup. unfold h0. rewrite (relabel_keys m g Hw Hinj).
+    apply inj_nodup; [apply Hw|exact Hinj].
+  - unfold has_node. now rewrite Ex.
+Qed.
